@@ -448,7 +448,8 @@ def run(ctx):
             mx = max(exp_v)
             for a, va in enumerate(exp_v):
                 m = va - (mx - tolv)
-                if abs(m) <= Fraction(4e-12) * Fraction(scale) and not (m == 0 and tolv == 0 and va == mx):
+                sc = Fraction(scale) + max(abs(x) for x in exp_v)     # a large perturbation enlarges the rounding error
+                if abs(m) <= Fraction(4e-12) * sc and not (m == 0 and tolv == 0 and va == mx):
                     return True
             return False
 
